@@ -191,6 +191,8 @@ def c19(run):
     # composition: the real Syncer over the real p2p.Exchange (scripted peer on mocknet), tracker populated or empty:
     # the head request of a stale subjective head is verified against it whichever peers the Exchange falls back to
     judge(run, [{"id": 0, "from_tlc": False}], "TestComposite", "CompositeTrace", ["C19_"], shards=1, pkg="p2ph")
+    # the Syncer's shared state under concurrent gossip, Head() callers and the sync loop (HeadMonotone at yield-point granularity)
+    sync_conc(run, ["C19_"])
 
 
 def syncer_cfg(n, maxreq, faults, events, export, live=False):
@@ -409,9 +411,30 @@ def c07(run):
     sync_explore(run, ["C07_"], 1600 if run.tier == "quick" else 80000)
 
 
+def sync_conc(run, prefixes):
+    """SyncConc.tla: the Syncer's shared state (syncStore head, pending cache, trigger) under gossip deliveries, Head()
+    callers and the sync loop at yield-point granularity.  TLC checks the current code's configuration (Fix = "max")
+    and must refute the two others (the code before the repair of D26, and a re-check before pending.Add) — a self-test
+    that the invariant has teeth; the counterexample behaviour is replayed on the real Syncer through the verif yield
+    points (TestStalePending) and judged by SyncConcTrace.tla."""
+    quick = run.tier == "quick"
+    consts = {} if quick else {"N": 6, "MaxG": 3, "MaxH": 2, "MaxReq": 2}
+    res = vlib.tlc(run.pid, "syncconc", "SyncConc", "SyncConc.cfg", workers=8, timeout=3000, constants=consts)
+    vlib.require_tlc_ok(res, "SyncConc.tla")
+    run.add_tlc("SyncConc.tla (gossip x Head() x sync loop at yield-point granularity: HeadMonotone, SubjectiveCoversStore, NoSpuriousErr, "
+                "WrapMonotone, LocalHeadMonotone, liveness Reached)", res)
+    for cfg in ("SyncConcOld.cfg", "SyncConcRecheck.cfg"):
+        bad = vlib.tlc(run.pid, "syncconc_" + cfg[:-4], "SyncConc", cfg, workers=8, timeout=1200)
+        if bad.violated != "SubjectiveCoversStoreAtRest":
+            raise vlib.Inconclusive("SyncConc.tla self-test: %s was not refuted (%s)" % (cfg, bad.error or bad.violated))
+    run.cov["syncconc_selftests_refuted"] = 2
+    judge(run, [{"id": 0, "from_tlc": True}], "TestStalePending", "SyncConcTrace", prefixes, shards=1, pkg="synch", drift_prefixes=("IMPL_",))
+
+
 @register("C03")
 def c03(run):
     syncer_family(run, ["C03_"])
+    sync_conc(run, ["C03_"])
     sync_explore(run, ["C03_"], 1600 if run.tier == "quick" else 80000)
     # the other way the Syncer writes to the Store: the starting point is moved down and the difference below the old tail is
     # fetched in several (partial) range answers — the Store must end as one gap-free run again
